@@ -461,7 +461,30 @@ func c02R4(p *core.Prog, r *core.Report) {
 					}
 				}
 				if isOS(cal, "Rename") {
-					for _, l := range pathLeaves(core.CallArg(c, 1)) {
+					leaves := pathLeaves(core.CallArg(c, 1))
+					if call != nil {
+						// a leaf that is a parameter of the helper: the leaves of the caller's argument
+						for _, l := range pathLeaves(core.CallArg(c, 1)) {
+							if par, ok := l.(*ssa.Parameter); ok {
+								for i, q := range h.Params {
+									if q == par {
+										for _, l2 := range pathLeaves(core.CallArg(call, i)) {
+											if lc, ok := l2.(*ssa.Call); ok {
+												if f := core.Callee(lc); f != nil && f.Name() == "Encoded" {
+													for _, o := range core.Origins(core.CallArg(lc, 0), core.SliceOpts{FieldsThrough: true}) {
+														if o.Kind == core.OCall && isInvoke(o.Call, "GetDescriptor") {
+															nameOK = true
+														}
+													}
+												}
+											}
+										}
+									}
+								}
+							}
+						}
+					}
+					for _, l := range leaves {
 						if lc, ok := l.(*ssa.Call); ok {
 							if f := core.Callee(lc); f != nil && f.Name() == "Encoded" {
 								for _, v := range expand(core.CallArg(lc, 0), h, call) {
